@@ -67,8 +67,19 @@ def innermost_repo_frame(tb):
 
 
 def crash_sig(e):
-    fr = innermost_repo_frame(e.__traceback__)
-    where = f"{fr[0]}:{fr[1]}" if fr else 'outside-repo'
+    """Mechanism signature of a host exception: type + the two innermost /repo frames."""
+    frames = []
+    for fs in traceback.extract_tb(e.__traceback__):
+        fn = os.path.abspath(fs.filename)
+        if fn.startswith(REPO + os.sep):
+            frames.append((os.path.relpath(fn, REPO), fs.name))
+    if not frames:
+        return f"{type(e).__name__}@outside-repo"
+    f1 = frames[-1]
+    prev = [f for f in frames[:-1] if f[1] != f1[1]]
+    where = f"{f1[0]}:{f1[1]}"
+    if prev:
+        where = f"{prev[-1][1]}>" + where
     return f"{type(e).__name__}@{where}"
 
 
